@@ -10,8 +10,15 @@
                      reads blocks the loop by design: back-pressure, not a defect)
      dec, b64        oracles: decodeKey (property C09) and base64 decoding
      spec_user       the user events a sequence of delivered items stands for, defined from the
-                     shape of each item only (classify / spec_item), independently of handle *)
-From Vx Require Import base.Prelude model.Parser model.Mouse model.Input proofs.InputProofs.
+                     shape of each item only (classify / spec_item), independently of handle
+     ACursorArm / ACursorWrite   the two statements of CursorPosition's prologue as separately
+                     scheduled steps (ACursorQuery = both at once); cursor_prog = their order in
+                     /repo's source, translated by gen/input.go into gen/GenInput.v
+     spec_wire / spec_answers    the same specification from the terminal's side: a report
+                     CSI .. R is the reply from the moment the query is WRITTEN (not: from the
+                     moment the flag is armed); the answers the callers must receive
+     sched_ok prog   the schedules that can happen when the prologue runs in the order prog *)
+From Vx Require Import base.Prelude gen.GenInput model.Parser model.Mouse model.Input proofs.InputProofs.
 
 (* Every sequence the parser can deliver is well formed (no empty CSI parameter), for every
    byte stream and every segmentation of it by silences. *)
@@ -157,6 +164,34 @@ Theorem C03_answer_cursor_style : forall dec b64 inter' ps n s, 48 <= n <= 54 ->
 Proof. exact answer_cursor_style. Qed.
 Print Assumptions C03_answer_cursor_style.
 
+(* The request side.  CursorPosition arms the request flag BEFORE the query reaches the terminal
+   (order of the statements of its translated body), its time-out branch disarms it and the
+   other branch receives the answer; the callers without a flag (ClipboardPop, QueryColor,
+   QueryForeground, QueryBackground) write their query before they wait for the reply. *)
+Theorem C03_request_armed_before_query_written :
+  cursor_prog = [ACursorArm; ACursorWrite] /\
+  cursor_position_select = [[PStore 0 false]; [PRecv 0]] /\
+  (exists q, clipboard_pop_body = [PWrite q; PRecv 1]) /\
+  (exists q, query_color_body = [PWrite q; PRecv 2]) /\
+  (exists q, query_foreground_body = [PWrite q; PRecv 3]) /\
+  (exists q, query_background_body = [PWrite q; PRecv 4]).
+Proof. exact (conj cursor_prog_order request_bodies). Qed.
+Print Assumptions C03_request_armed_before_query_written.
+
+(* ... and therefore, for EVERY schedule of the input goroutine against the statements of the
+   application's calls in that order (the goroutine may run between any two statements; a reply
+   may be handled before the write has even returned to its caller): a report that answers a
+   written query is consumed, never surfaces as user input, and its position reaches the caller
+   that is still waiting; everything else is delivered as the stream says.  Specification from
+   the terminal's side (spec_wire, spec_answers): independent of when the flag is armed. *)
+Theorem C03_solicited_cursor_reply_consumed_and_answered : forall dec b64 l s,
+  sched_ok cursor_prog (req_cursor s) [] l = true -> q_stalled s = None ->
+  exists s' es, run_steps dec b64 s l = Ok s' es /\ q_stalled s' = None /\
+    user_events es = spec_wire dec (paste s) (req_cursor s) l /\
+    cursors_of es = spec_answers (req_cursor s) (w_cursor s) l.
+Proof. exact solicited_cursor_reply. Qed.
+Print Assumptions C03_solicited_cursor_reply_consumed_and_answered.
+
 (* The start-up loop of New learns exactly the capabilities whose events precede the DA1 reply
    (kitty keyboard unless disabled), stops at it and leaves everything after it in the queue. *)
 Theorem C03_startup_collects_exactly : forall dk evs su,
@@ -253,3 +288,31 @@ Example C03_example_bytes :
   | _ => False
   end.
 Proof. split; vm_compute; reflexivity. Qed.
+
+(* the hypothesis of C03_solicited_cursor_reply_consumed_and_answered is met by the schedule of
+   a terminal that is faster than the writer: a key, the flag armed, another key squeezed in
+   before the write, the query written, the reply handled at once, more input, and a second
+   call whose reply comes after its time-out fired (dropped) -- the first caller gets 5;7 and
+   the application sees the three keys only *)
+Definition ex_sched : list step :=
+  [SItem (IPrint [97]); SApp ACursorArm; SItem (IPrint [98]); SApp ACursorWrite;
+   SItem (ICsi [] [[5]; [7]] 82); SItem (IPrint [99]);
+   SApp ACursorArm; SApp ACursorWrite; SApp ACursorTimerFires; SItem (ICsi [] [[1]; [1]] 82);
+   SApp ACursorGiveUp].
+Example C03_example_fast_terminal :
+  sched_ok cursor_prog false [] ex_sched = true /\
+  (forall b64, exists s', run_steps ex_dec b64 vx0 ex_sched =
+     Ok s' [Ev (EKey (mkIKey [97] 97 0 0 0 0)); Ev (EKey (mkIKey [98] 98 0 0 0 0)); ToCursor 5 7;
+            Ev (EKey (mkIKey [99] 99 0 0 0 0))]) /\
+  spec_answers false false ex_sched = [(5, 7)].
+Proof. split; [vm_compute; reflexivity|]. split; [|vm_compute; reflexivity]. intros b64. eexists. vm_compute. reflexivity. Qed.
+
+(* the order obligation matters: had the query been written before the flag is armed, the
+   schedule "reply handled between the two statements" would be admissible, the solicited report
+   would surface as a key and the caller would get nothing *)
+Example C03_example_order_matters : forall dec b64,
+  sched_ok swapped_prog false [] fast_reply_schedule = true /\
+  spec_wire dec false false fast_reply_schedule = [] /\
+  spec_answers false false fast_reply_schedule = [(5, 7)] /\
+  exists s', run_steps dec b64 vx0 fast_reply_schedule = Ok s' [Ev (EKey (dec (ICsi [] [[5]; [7]] 82)))].
+Proof. exact order_matters. Qed.
